@@ -77,6 +77,15 @@ CHECKS = {
          "directory, and 6-12 concurrent compilations sharing the directory and /tmp; (font sha256, diagnostics sha256, exit status) must all be equal."),
    note=TB + "The schedule/heap-layout quantifier is explored (whatever the scheduler produced), not proved; wall-clock dependence is not perturbed. Theorems cover the identified pointer-ordered iterations only.",
    design="4/C13", category="proof"),
+ "C16": dict(
+   technique="Lean 4 theorems on label-id allocation and setting order + Lean comparison of the decoded Feat/Sill/name tables of real output with the declarations, incl. recompilation",
+   text=("Proof: Grc.Ft.alloc_ge_256, alloc_fresh, alloc_nodup (ids handed out from max(maxUsed+1, 256, -n) are >= 256, pairwise distinct and never an id the font already uses), "
+         "orderSettings_head/_mem/_length (default first, same settings). Tie: for generated feature and language tables over input fonts with different name tables and -n values the Lean driver "
+         "checks on the real font: every declared id (main and hidden alternates) occurs once in Feat, default first, every label resolves in the Microsoft (and Unicode, when present) records to the "
+         "declared string for each declared language, every label id in Feat has a record, new records use only fresh ids >= the model's first id, Sill maps each declared language to exactly the "
+         "declared values; the output is then recompiled and labels must be reused (no new records, same Feat)."),
+   note=TB + "Order of non-default settings is not fixed by the property. Macintosh-platform records are not examined.",
+   design="4/C16"),
  "C14": dict(
    technique="Lean 4 theorem (skip-bit soundness for all glyph strings and positions) + its hypothesis evaluated on the decoded *skipPasses* attributes of real output + differential shaping of default vs -p builds with libgraphite2",
    text=("Proof: Grc.PB.skip_sound — if every effective rule of a pass has an input item all of whose class members have the pass's skip bit cleared, then on every glyph string whose glyphs all "
